@@ -63,7 +63,10 @@ const (
 	minimumChangesToDump   = 1024
 	dumpHeader             = "mosdns_cache_v2"
 	dumpBlockSize          = 128
-	dumpMaximumBlockLength = 1 << 20 // 1M block. 8kb pre entry. Should be enough.
+	// Upper bound of a block. It must hold the largest single entry: a 64k
+	// dns message that used name compression can unpack to more than 2M
+	// when it is packed again without compression.
+	dumpMaximumBlockLength = 4 << 20
 )
 
 var _ sequence.RecursiveExecutable = (*Cache)(nil)
@@ -405,11 +408,22 @@ func (c *Cache) writeDump(w io.Writer) (int, error) {
 			MsgStoredTime:       v.storedTime.Unix(),
 			Msg:                 msg,
 		}
+		entryBytes := len(e.Key) + len(e.Msg) + 64 // 64: more than the protobuf overhead of an entry
+		if entryBytes > dumpMaximumBlockLength {
+			// readDump would reject the block and everything after it.
+			c.logger.Warn("cache entry is too big to dump, skipped", zap.Int("size", entryBytes))
+			return nil
+		}
+		// Never let a block grow over the block length that readDump accepts.
+		if len(block.Entries) > 0 && blockBytes+entryBytes > dumpMaximumBlockLength {
+			if err := writeBlock(); err != nil {
+				return err
+			}
+		}
 		block.Entries = append(block.Entries, e)
-		blockBytes += len(e.Key) + len(e.Msg) + 64 // 64: more than the protobuf overhead of an entry
+		blockBytes += entryBytes
 
-		// Block is big enough for a write operation. Write it before it can
-		// grow over the block length that readDump accepts.
+		// Block is big enough for a write operation.
 		if len(block.Entries) >= dumpBlockSize || blockBytes >= dumpMaximumBlockLength/2 {
 			return writeBlock()
 		}
